@@ -46,18 +46,23 @@ fn init_logging(opts: &Opts) -> Result<()> {
 }
 
 // Expand a list of file-paths or glob-patterns into a list of concrete paths.
-// FIXME: This currently eats non-existent files that are not
-// globs. Should we convert empty glob results into errors?
 fn expand_globs(patterns: &[String]) -> Result<Vec<PathBuf>> {
-    let paths = patterns.iter()
+    let expanded = patterns.iter()
         .map(|s| glob(s.as_str()))
         .collect::<result::Result<Vec<Paths>, _>>()?
         .iter_mut()
         // Force resolve each glob Paths iterator into a vector of the results...
         .map::<result::Result<Vec<PathBuf>, _>, _>(Iterator::collect)
         // And lift all the results up to the top.
-        .collect::<result::Result<Vec<Vec<PathBuf>>, _>>()?
-        .iter()
+        .collect::<result::Result<Vec<Vec<PathBuf>>, _>>()?;
+
+    // A pattern (or plain name) that selects nothing is a missing
+    // source, even when other patterns do match.
+    if expanded.iter().any(Vec::is_empty) {
+        return Err(XcpError::InvalidSource("No source files found.").into());
+    }
+
+    let paths = expanded.iter()
         .flat_map(ToOwned::to_owned)
         .collect::<Vec<PathBuf>>();
 
